@@ -1,10 +1,10 @@
 """C02 - IOS <-> NX-OS conversion changes spelling only (histories on a live Acl; see harness/aclhist.py, spec AclSem.tla, Trace_Acl.tla)."""
 import random
 
-from harness import core, aclhist
+from harness import core, aclhist, c06
 
 PROP = "C02"
-TRACE_MODULES = ["Trace_Acl"]
+TRACE_MODULES = ["Trace_Acl", "Trace_C06"]
 WEIGHTS = dict(SetPlatform=10, SetPortNr=1, SetProtocolNr=1, Resequence=1, Group=1, Ungroup=1, Reparse=1, Copy=1)
 
 
@@ -14,8 +14,28 @@ def run(tier, seed):
     n = 1500 if tier == "quick" else 12000
     jobs = [aclhist.make_history(rng, t, WEIGHTS, nops=rng.randint(2, 6)) for t in range(1, n + 1)]
     aclhist.fill_permutations(rng, jobs)
-    return aclhist.run_histories("C02", jobs, tier, mcs, "operation mix dominated by platform changes in both directions (there, back, there again), interleaved with switches, resequencing, grouping")
+    res = aclhist.run_histories("C02", jobs, tier, mcs, "operation mix dominated by platform changes in both directions (there, back, there again), interleaved with switches, resequencing, grouping")
+    ol, ojobs, oevents, ovstats = c06.object_level(random.Random(seed * 7 + 1), 5000 if tier == "quick" else 60000, "C02.")
+    res["verdicts"] += ol
+    cov = res["coverage"]
+    cov["traces_validated_against_impl"] += len(ojobs)
+    cov["evaluations"] += len(oevents)
+    cov["distinct_nontrivial"] += len({(j["cls"], j["text"]) for j in ojobs})
+    cov["rule"] += " || OBJECT LEVEL: single objects (Ace, Address, AddressAg, AddrGroup, Port, Protocol, Option, Remark, Wildcard) converted on their own: there, back, there again (Trace_C06)"
+    cov["object_level"] = dict(trace_validation=ovstats, jobs=len(ojobs))
+    return res
 
 
 def replay(path):
-    return aclhist.replay_history(path)
+    import json
+    with open(path) as f:
+        r = json.load(f)
+    if "ops" in r["case"]:
+        return aclhist.replay_history(path)
+    core._init_worker(core.REPO)
+    evs = c06.exec_job(r["case"])
+    verdicts, _ = core.validate("Trace_C06", evs, nchunks=1)
+    mine = [v for v in verdicts if v["clause"].startswith(PROP + ".")]
+    for v in mine:
+        print("REPLAY verdict:", v)
+    return 1 if mine else 0
